@@ -541,8 +541,8 @@ class ExecExpr(ExecBase):
                     return v
             raise EngineError("dict literal lookup with non-syntactic key")
         if self.is_dict(base):
-            self.oblige("safe", st, self.dict_has(st, base, idx), "dictionary key present", name=self.next_call_id("key"))
-            return self.dict_get(st, base, idx, NONE)
+            self.oblige("safe", st, self.dict_has(st, base, idx), "dictionary key present (KeyError)", name=self.next_call_id("key"))
+            return self.dict_index(st, base, idx)
         raise EngineError(f"subscript on {base}")
 
     def slice(self, sl, st, base):
